@@ -42,10 +42,44 @@ func nonZeroBytes(r *rand.Rand, n int) []byte {
 
 var bigOne = big.NewInt(1)
 
+func boolToInt(b bool) int {
+	if b {
+		return 1
+	}
+	return 0
+}
+
 // interesting integer patterns for a bit width
 func randInt(r *rand.Rand, bits int, signed bool) *big.Int {
 	max := new(big.Int).Lsh(bigOne, uint(bits))
-	switch r.IntN(8) {
+	switch r.IntN(10) {
+	case 8, 9:
+		// around the machine-word boundaries inside the type's range:
+		// +-(2^k + d), k in {7,8,15,16,31,32,63,64,127,128}, d in [-2,2], and
+		// a random magnitude just above/below 2^k
+		ks := []uint{7, 8, 15, 16, 31, 32, 63, 64, 127, 128, 255}
+		k := ks[r.IntN(len(ks))]
+		v := new(big.Int).Lsh(bigOne, k)
+		if r.IntN(2) == 0 {
+			v.Add(v, big.NewInt(int64(r.IntN(5)-2)))
+		} else if k >= 8 {
+			// 2^k <= v < 2^(k+1) at random
+			off := new(big.Int).SetBytes(randBytes(r, int(k+7)/8))
+			off.Mod(off, new(big.Int).Lsh(bigOne, k))
+			v.Add(v, off)
+		}
+		if signed && r.IntN(2) == 0 {
+			v.Neg(v)
+		}
+		lo, hi := big.NewInt(0), new(big.Int).Sub(max, bigOne)
+		if signed {
+			half := new(big.Int).Lsh(bigOne, uint(bits-1))
+			lo, hi = new(big.Int).Neg(half), new(big.Int).Sub(half, bigOne)
+		}
+		if v.Cmp(lo) >= 0 && v.Cmp(hi) <= 0 {
+			return v
+		}
+		return big.NewInt(int64(r.IntN(3) - 1) * int64(boolToInt(signed)))
 	case 0:
 		return big.NewInt(0)
 	case 1:
